@@ -406,7 +406,8 @@ def shards(tier: str) -> List[Dict[str, Any]]:
         elif tier == "quick" and (name.startswith("unrecognised") or name == "reversed_primitive_chain"):
             combos = [[0, 2, 4], [4, 0, 2], [2, 4, 0]]
         elif tier == "quick":
-            combos = [list(t) for t in itertools.product((0, 2, 4), repeat=3)]  # <, ==, >=
+            # <, ==, >= : every comparator at every position, every pair of neighbours (9 of the 27 triples; all in thorough)
+            combos = [[0, 0, 0], [2, 2, 2], [4, 4, 4], [0, 2, 4], [2, 4, 0], [4, 0, 2], [0, 4, 2], [2, 0, 4], [4, 2, 0]]
         else:
             combos = [list(t) for t in itertools.product(range(6), repeat=3)]
         for ops in combos:
@@ -417,6 +418,8 @@ def shards(tier: str) -> List[Dict[str, Any]]:
                                 + (",orders=" + "/".join("sym" if o is None else "len-left" for o in orders) if orders else ""),
                         "params": {"template": name, "slots": k, "ops": ops, "orders": orders},
                         "budget_s": budget, "per_path_timeout": 60})
+    weight = {"own3": 0, "chain": 1, "constrained_primitive": 1, "reversed_primitive_chain": 1}
+    out.sort(key=lambda shard: weight.get(shard["params"]["template"], 2))  # the long ones start first
     return out
 
 
@@ -430,12 +433,14 @@ def describe(tier: str) -> Dict[str, Any]:
                       "aas_core_codegen.infer_for_schema._inline._merge_len_constraints",
                       "aas_core_codegen.infer_for_schema.match.try_conditional_on_prop",
                       "aas_core_codegen.infer_for_schema._types.LenConstraint"],
-        "bounds": "6 template meta-models (2 and 3 invariants on one str property; Optional property with both guard forms; "
-                  "list properties; grand-parent/parent/child chain; constrained-primitive chain used by a class) loaded through "
+        "bounds": "10 template meta-models (2 and 3 invariants on one str property; Optional property with both guard forms; "
+                  "list properties; grand-parent/parent/child chain; constrained-primitive chain used by a class; a three-level "
+                  "chain of constrained primitives declared descendant first; three templates of unrecognised forms) loaded through "
                   "the REAL front end; per invariant slot: comparator in {<,<=,==,>,>=,!=}, operand order, constant in [-2, 8] "
-                  "symbolic; probe length n in [0, 10] symbolic",
+                  "symbolic; probe length n in [0, 10] symbolic" + ("; quick tier: templates with three slots run 9 of the 27 comparator "
+                  "triples over {<, ==, >=} (every comparator at every position)" if tier == "quick" else ""),
         "outside": "pattern and constant-set inference (their deciding code is dictionary bookkeeping over names/ids: see "
-                   "DESIGN.md C15); constants outside [-2, 8]; more than 3 invariants per property; models outside the 6 templates",
+                   "DESIGN.md C15); constants outside [-2, 8]; more than 3 invariants per property; models outside the templates",
         "stubs": ["IR-level holes: operator, operand order and constant of the slot comparisons are overwritten in the "
                   "intermediate representation after the real front end ran on the template"],
         "assumptions": ["'!=' comparisons and the 'noise' invariants are the unrecognised forms and must be ignored",
